@@ -18,22 +18,24 @@ import (
 )
 
 type Obligation struct {
-	Name      string   `json:"name"`
-	Kind      string   `json:"kind"`
-	Func      string   `json:"func"`
-	Props     []string `json:"props"`
-	Prefix    int      `json:"-"`
-	Goal      string   `json:"-"`
-	Cond      string   `json:"-"`
-	Parts     []string `json:"-"`
-	Files     []string `json:"files"`
-	ExpectSat bool     `json:"expect_sat,omitempty"`
-	Pos       string   `json:"pos"`
-	Tainted   string   `json:"tainted,omitempty"`
-	Clause    string   `json:"clause,omitempty"`
-	File      string   `json:"file"`
-	Quant     bool     `json:"quant,omitempty"`
-	IntMode   string   `json:"intmode"`
+	Name         string   `json:"name"`
+	Kind         string   `json:"kind"`
+	Func         string   `json:"func"`
+	Props        []string `json:"props"`
+	Prefix       int      `json:"-"`
+	Goal         string   `json:"-"`
+	Cond         string   `json:"-"`
+	Parts        []string `json:"-"`
+	Files        []string `json:"files"`
+	ExpectSat    bool     `json:"expect_sat,omitempty"`
+	ThoroughOnly bool     `json:"thorough_only,omitempty"`
+	PairedWith   string   `json:"paired_with,omitempty"` // call-site vacuity: the obligation saying the call itself is reached
+	Pos          string   `json:"pos"`
+	Tainted      string   `json:"tainted,omitempty"`
+	Clause       string   `json:"clause,omitempty"`
+	File         string   `json:"file"`
+	Quant        bool     `json:"quant,omitempty"`
+	IntMode      string   `json:"intmode"`
 	// replay on the real code (goreplay.go): the clause as a Go expression, where translatable
 	GoClause  string      `json:"go_clause,omitempty"`
 	GoHelpers string      `json:"go_helpers,omitempty"`
